@@ -15,6 +15,7 @@ import (
 	"os"
 	"path/filepath"
 	"strings"
+	"time"
 
 	"github.com/sheerbytes/sheerbytes/pkg/manifest"
 )
@@ -1193,4 +1194,52 @@ func H_C17_files() {
 		}
 	}
 	vCover("C17 files: success")
+}
+
+// ---------------------------------------------------------------------------------------------
+// C03 (wake-up between lookup and wait): a healthy scripted sender, one file of one chunk. The stream
+// reader may see the frame before the main loop has handled FileBegin; it then looks the file up, does
+// not find it and goes to wait for its announcement. Every schedule with one preemption before a lock
+// operation is explored: the receiver must always come back with success.
+var vC03WakeGate int
+
+func H_C03_wake() {
+	size := 1
+	src := vBytes("src", size)
+	item := manifest.FileItem{RelPath: "f", Size: int64(size), ID: "id"}
+	m := manifest.Manifest{Items: []manifest.FileItem{item}, TotalBytes: int64(size), FileCount: 1}
+	key := fileKeyForItem(item)
+	control := &vMemStream{buf: vControlBytes(m)}
+	_ = writeDataStreams(control, DataStreams{Count: 1})
+	vC03WakeGate = len(control.buf)
+	_ = writeFileBegin(control, FileBegin{RelPath: "f", FileSize: uint64(size), ChunkSize: 4, StreamID: key, HashAlg: HashAlgCRC32C})
+	hdr := make([]byte, dataChunkHeaderLen)
+	binary.BigEndian.PutUint64(hdr[0:8], key)
+	binary.BigEndian.PutUint32(hdr[8:12], 0)
+	binary.BigEndian.PutUint32(hdr[12:16], uint32(size))
+	binary.BigEndian.PutUint32(hdr[16:20], crc32.Checksum(src, crc32cTable))
+	data := &vMemStream{buf: append(hdr, src...)}
+	// the sender sends FileEnd and End only after its frames; a stalled control stream stands for "the
+	// sender is still waiting for the acknowledgement"
+	control.stall = true
+	conn := &vScriptConn{streams: []Stream{control, data}}
+	out := vTempDir() + "/out"
+	done := false
+	opts := Options{NoRootDir: true, FileDoneFn: func(rel string, ok bool) { done = done || ok }}
+	ctx := vContext("ctx", true)
+	if !vSymbolic() {
+		// native replay: FileBegin arrives 30 ms after the frame, the reader pauses 100 ms between its lookup
+		// and its registration as a waiter (hook inserted by the replay overlay), the caller gives up after 500 ms
+		control.gateAt, control.gateDelay = vC03WakeGate, 30
+		vRecvYield = func() { time.Sleep(100 * time.Millisecond) }
+		defer func() { vRecvYield = func() {} }()
+		c, cancel := context.WithCancel(context.Background())
+		time.AfterFunc(500*time.Millisecond, cancel)
+		ctx = c
+	}
+	_, err := RecvManifestMultiStream(ctx, conn, out, opts)
+	// the caller cancels only when everybody waits (see job): by then the file must have been confirmed
+	vAssert(done, "the file is confirmed to the sender before the receiver goes idle")
+	_ = err
+	vCover("C03 wake: file confirmed")
 }
